@@ -15,8 +15,11 @@ TECH = {
                "counterexamples replayed with plain values",
 }
 NOTE = ("Trusted: CPython 3.12 asyncio primitives (executed, not modelled), the virtual-time loop's conformance "
-        "to the event-loop contract, z3. Assumed: wall clock = loop clock, exact integer time, jobs honour "
-        "cancellation. Bounds (number of jobs, depth, templates) are listed in the evidence file of every run.")
+        "to the event-loop contract (self-tested against the stock loop), z3 (a sample of queries is re-decided by "
+        "z3 4.8.12 and cvc5 in the thorough tier). Assumed: wall clock = loop clock, exact integer time, jobs honour "
+        "cancellation, one run per scheduler object, flags fixed during a run. Bounds (templates, number of jobs, "
+        "depth, how objects are built and what was done with them before the run) are listed in the evidence file "
+        "of every run and in DESIGN.md sections 9.7 and 11.3; nothing is claimed outside them.")
 
 checks = []
 na = []
@@ -65,10 +68,18 @@ manifest = {
         {"name": "symx", "path": "symx/", "serves_properties": [c["property_id"] for c in checks],
          "kind_free_text": "own z3-backed path explorer over the real Python code (replay-based DFS, prove/assume, "
                            "sharded over 16 processes), concrete replay mode without z3"},
+        {"name": "crosshair", "path": "dot/ch_labels.py, dot/ch_run.py, xcheck/ch_engine.py",
+         "serves_properties": ["C20", "C01", "C12"],
+         "kind_free_text": "CrossHair 0.0.110 (z3): symbolic Unicode label strings through the real DOT quoting code "
+                           "(C20 part L); cross-validation of symx on a reduced scenario (thorough C01, C12)"},
     ],
     "checks": checks,
     "not_applicable": na,
-    "notes": "Known findings and fixed defects: known_findings.json. Seeded changes: seeded/. See DESIGN.md.",
+    "notes": "Known findings (KF-1, KF-3) and the ten repaired defects: known_findings.json (witnesses under known/). "
+             "Seeded changes: seeded/ (120 breaking changes from independent sub-agents with detection records, 12 "
+             "behaviour-preserving refactorings as negative controls); tools/seeded_detect.py, tools/regress_fixed.sh. "
+             "Thorough tier = the quick harnesses explored completely + budgeted deep harnesses + second-solver audit + "
+             "VLoop conformance + (C01, C12) CrossHair cross-check of the path explorer. See DESIGN.md sections 9-11.",
 }
 with open(os.path.join(HERE, "MANIFEST.json"), "w") as f:
     json.dump(manifest, f, indent=1)
